@@ -15,17 +15,17 @@ CHECKS = {
          "Every transition of E1 (all families) and of E2's whole games is compared with the explorer's own counters: side, step 0..3, move number (+1 exactly when Silver's turn ends), nothing pending and a fresh per-turn record at every turn start; roots are also started from move numbers 1, 3, 50, 1e6 and 2^32+1.",
          "Move numbers near usize::MAX are outside the domain.", "DESIGN.md §4 C03"),
  "C04": ("explicit-state exploration; five-step official cascade evaluated by the reference model on every root and every reached turn start",
-         "is_terminal() at every root of the families (every goal square for both colours, alone and in pairs/triples) and at every turn-start state reached by play is compared with the reference cascade (goal of previous mover, goal of mover, elimination of mover, elimination of previous mover, immobilisation); every mid-turn state may report a result only when nothing is offered; the 2^5 condition vectors observed are tabulated.",
+         "is_terminal() at every root of the families (every goal square for both colours, alone and in pairs/triples) and at every turn-start state reached by play is compared with the reference cascade (goal of previous mover, goal of mover, elimination of mover, elimination of previous mover, immobilisation); every mid-turn state may report a result only when nothing is offered; the 2^5 condition vectors observed are tabulated; family FM (material ladder) evaluates the cascade on three full boards with every number of rabbits and 0/1/2/8 officers removed per side.",
          "Trusted: reference model's legal-step generator for 'no legal step'.", "DESIGN.md §4 C04"),
  "C05": ("explicit-state exploration of whole confined games to fix-point (all histories the configuration admits) against exact, never-forgotten board histories",
          "E2 explores every game of each confined configuration breadth-first until no new state appears (or to a stated turn bound), following every offered action inside the domains; at every turn-ending transition the new board must differ from the explorer's snapshot of the turn-start board and (board, side) may have occurred at most once before in the explorer's exact list of turn-start positions, which is never cleared at captures. E1 adds the 'board unchanged' half on every family.",
-         "Window/material bound of the confined configurations; long histories (E8 lassos up to 450 entries, E9 Gray-code shuffles on the full-board seeds up to 33 / 65 entries, padded configurations) are scripted paths on which every offered action of every state is checked, not full state spaces; 64-bit hash collisions between boards outside the explored set are not addressed.", "DESIGN.md §2.2, §4 C05"),
+         "Window/material bound of the confined configurations; long histories (E8 lassos up to 450 entries, E9 Gray-code shuffles on the full-board seeds up to 33 / 65 entries, padded configurations) are scripted paths on which every offered action of every state is checked, not full state spaces; positions that recur only with the opponent's help are covered by the scripted drag-back games; partial-hash comparison by the collision games (pairs of positions agreeing on a 32-bit window of the engine's public hash, enumerated over 657,720 arrangements); full 64-bit collisions between boards outside the explored set are not addressed.", "DESIGN.md §2.2, §4 C05"),
  "C06": ("explicit-state exploration (E2 games to fix-point, E1 families); offered list compared, order preserved, with the rule-only list filtered by the exact repetition rule",
          "In every state of E2 and E1: valid_actions() must equal valid_actions_no_rep() minus exactly the turn-ending actions whose resulting board equals the turn-start board or would be the third turn-start occurrence of (board, side) in the explorer's exact never-forgotten history; same order; nothing else withheld. States after captures (where the engine forgets its history and the explorer does not) decide the 'forgetting never changes the offer' clause.",
-         "Window/material bound of the confined configurations; the long / dense histories of E8, E9 and the padded configurations are scripted paths on which every offered action of every state is checked.", "DESIGN.md §4 C06, §8.2"),
+         "Window/material bound of the confined configurations; the long / dense histories of E8, E9, E10 (distance sweep, drag-back games, 32-bit-window collision games) and the padded configurations are scripted paths on which every offered action of every state is checked.", "DESIGN.md §4 C06, §8.2"),
  "C07": ("explicit-state exploration of E1 families plus confined whole games to fix-point (E2); summary queries compared with the action lists in every state",
          "In every state of E1, E2 and the setup trie: no result => non-empty offered list; mid-turn result <=> empty list and it is a loss for the mover; has_move, can_pass(true/false) agree with the lists. E2's confined games reach the rare states where everything is withheld by repetition (counted in evidence).",
-         "Confined-game material/window bound for the repetition-dependent states (incl. frozen armies padded to 12 pieces and the 18-piece dense corner game).", "DESIGN.md §4 C07"),
+         "Confined-game material/window bound for the repetition-dependent states (incl. frozen armies padded to 12 pieces, the 18-piece dense corner game, and the drag-back games in which a rabbit's forward step is itself a third repetition).", "DESIGN.md §4 C07"),
  "C08": ("explicit-state exploration; incremental hash compared with from-scratch hash on every state, feature->hash map single-valued across all paths",
          "On every state of E1/E2/E3: transposition_hash equals the from-scratch Zobrist of (board, side, step, status); per root/configuration the map features->hash is single valued over all paths; at every turn end the newest history entry is the from-scratch hash and every entry belongs to a played position; equal (board, side, step) compare and hash equal; parse(print(s)) link on turn-start states of F1, seeds and setup leaves.",
          "Zobrist::from_piece_board is the from-scratch definition (its own injectivity is C17).", "DESIGN.md §4 C08"),
